@@ -305,6 +305,31 @@ fn case(g: &mut Gen, ctx: &mut Ctx) -> CaseResult {
                     o => fail!("{}: text label {:?} not kept as text (with-private): {:?}", r.name, t, o.map_err(|e| format!("{:?}", e))),
                 }
             }
+            // … and in the label-typed positions of maps, whatever the value under it
+            let v = match g.below(4) {
+                0 => Item::Text("v".into()),
+                1 => Item::Int(7),
+                2 => Item::Bytes(vec![1]),
+                _ => Item::Text(g.text()),
+            };
+            let vv = crate::conv::item_to_value(&v).ok_or("value")?;
+            let m = encode(&Item::Map(vec![(Item::Text(t.clone()), v.clone())]));
+            match ClaimsSet::from_slice(&m) {
+                Ok(c) => ensure!(c.rest.len() == 1 && c.rest[0].0 == coset::cwt::ClaimName::Text(t.clone()) && crate::props::common::same(&c.rest[0].1, &vv) && c.issuer.is_none() && c.subject.is_none() && c.audience.is_none(),
+                    "claims set {{{:?}: {}}}: the text claim name was not kept as a text claim with its value: {:?}", t, crate::cbor::diag(&v), c),
+                Err(e) => fail!("claims set with the single text claim {:?} rejected: {:?}", t, e),
+            }
+            match Header::from_slice(&m) {
+                Ok(h) => ensure!(h.rest.len() == 1 && h.rest[0].0 == coset::Label::Text(t.clone()) && crate::props::common::same(&h.rest[0].1, &vv) && h.alg.is_none() && h.key_id.is_empty(),
+                    "header {{{:?}: {}}}: the text label was not kept as an extra parameter: {:?}", t, crate::cbor::diag(&v), h),
+                Err(e) => fail!("header with the single text label {:?} rejected: {:?}", t, e),
+            }
+            let km = encode(&Item::Map(vec![(Item::Int(1), Item::Int(1)), (Item::Text(t.clone()), v.clone())]));
+            match CoseKey::from_slice(&km) {
+                Ok(k) => ensure!(k.params.len() == 1 && k.params[0].0 == coset::Label::Text(t.clone()) && crate::props::common::same(&k.params[0].1, &vv),
+                    "key with text label {:?}: not kept as an extra parameter: {:?}", t, k),
+                Err(e) => fail!("key with the text label {:?} rejected: {:?}", t, e),
+            }
             Ok(())
         }
         _ => {
